@@ -39,7 +39,7 @@ PROPS = {
         "num": 4,
         "vo": ["Properties/C04.vo"],
         "harness_timeout": 2400,
-        "rule": "rule files generated from the documented grammar: 0..8 rules; quoted (incl. non-ASCII, operators) and bare names, optional description strings containing attribute keywords; every attribute in every "
+        "rule": "Splitting layer: 3000 (quick) / 30000 (thorough) then clauses (assignments, appends, custom calls, literals in both quote characters full of separators, the other quote, '=', '+=', parentheses, multi-byte characters; blanks incl. U+00A0), argument lists and raw quote / separator soups (unterminated literals included) through parse_then_clause, split_arguments and find_outside_strings with five patterns. rule files generated from the documented grammar: 0..8 rules; quoted (incl. non-ASCII, operators) and bare names, optional description strings containing attribute keywords; every attribute in every "
                 "order (salience over the i32 range incl. negatives and extremes, no-loop / lock-on-active with and without `true`, agenda-group, activation-group incl. names such as \"no-loop\" and \"salience 7\", "
                 "date-effective / date-expires); condition trees to depth 5 over the typed core of C01 with redundant parentheses; literals of every type incl. strings with GRL metacharacters (; && || { } ( ) = , // then "
                 "when rule salience, quotes of the other kind, non-ASCII) in a third of the files, and strings with runs of blanks, leading / trailing blanks, tabs and non-ASCII spaces everywhere; action forms: assignment (literal, arithmetic, concatenation, field copy, array), +=, Log, retract($X), ActivateAgendaGroup, "
@@ -47,7 +47,7 @@ PROPS = {
                 "containing a closing brace or a rule header). Second stream: bare when clauses (depth to 6, metacharacter strings in half of them, arbitrary blanks and redundant parentheses) through the hook "
                 "verif_parse_when_clause, compared with the Coq model of the condition-tree parser AND with the written tree. Observed per rule: name, salience, flags, groups, dates, condition tree, action list. "
                 "non-trivial = at least one rule Negated negations are generated and printed side by side (!!(..), ! !(..)) as well as parenthesised.",
-        "level_text": "Theorems (Coq): the condition-tree parser recovers the written tree - for EVERY tree of comparisons joined by &&, || and !( ), any depth, any number of redundant parenthesis pairs, leaves being neutral texts "
+        "level_text": "The splitting layer below the regular expressions is modelled and proved (Model/GrlSplit.v): string literals in either quote character are opaque to the statement split of parse_then_clause, to split_arguments and to find_outside_strings, whatever they contain except their own quote; statements joined by ';' and arguments joined by ',' come back piece for piece; the slices around `=` / `+=` are on character boundaries for every statement. The three functions are compared with the model on arbitrary texts through hooks (exact prediction). Theorems (Coq): the condition-tree parser recovers the written tree - for EVERY tree of comparisons joined by &&, || and !( ), any depth, any number of redundant parenthesis pairs, leaves being neutral texts "
                 "(proved for ordinary text optionally followed by a string literal with arbitrary content), parse_when (print tree) = tree: && binds tighter than ||, parentheses and ! respected. Lemmas for every text: string literals are opaque to the condition splitter (whatever stands between two equal quote characters never separates conditions, at any depth, for any continuation); "
                 "parentheses protect (a text that may split at its own top level does not split once parenthesised); a top-level && / || between two non-splitting texts separates exactly there into exactly the two trimmed "
                 "texts; such texts compose. The model of parse_when_clause / split_logical_operator / the single-comparison pattern is compared with the code on every generated clause; the Coq-defined expectation exp_rule "
@@ -107,12 +107,12 @@ PROPS = {
                 "date-effective/expires around the evaluation timestamps, 1..2 integer comparisons per condition, 0..2 actions (assign, add, ActivateAgendaGroup); histories of 1..8 engine calls "
                 "(execute_at_time at timestamps 0..9, set/pop/clear focus, engine.activate_agenda_group, reset_no_loop_tracking, enable/disable) with max_cycles 1,2,3,10; observed per execute: cycle count, fired count, the firing "
                 "sequence (each rule appends its id to a trace fact), final fields, focused group; non-trivial = at least one firing",
-        "level_text": "Proved for every condition language and action semantics: the rule vector is kept in descending salience with insertion order among equals; the firings of a pass are a subsequence of it; "
+        "level_text": "Over whole histories of engine calls (several executes with any number of cycles, focus calls, activate_agenda_group, enabling / disabling, removing and adding rules) a no-loop rule fires at most once until reset_no_loop_tracking, and not at all once recorded (C02_no_loop_once_per_history, C02_no_loop_once_per_execute). Proved for every condition language and action semantics: the rule vector is kept in descending salience with insertion order among equals; the firings of a pass are a subsequence of it; "
                 "every firing passed every gate at the moment it was considered (enabled, focused group, date window, lock-on-active, activation group, no-loop) with a true condition; a no-loop rule fires at most once "
                 "per pass and never while recorded; at most one rule of an activation group fires per pass; a lock-on-active rule is blocked after firing until its own group is activated again. The monitor is equality "
                 "of the implementation's observations with this proved model on a concrete instance (integer comparisons; assign/add/ActivateAgendaGroup actions).",
         "level_note": "Trusted: Coq kernel; model of execute_at_time/AgendaManager/ActivationGroupManager/workflow queue/KB order after fixes b4b5b52 and 1106f91; the concrete instance EngineConc; harness; extraction. "
-                "no_loop across several execute calls is covered per pass (theorems) and per history (correspondence). Axioms: none.",
+                "no_loop across several execute calls is a theorem over whole histories of the concrete instance and over the cycles of one execute for every instance. Axioms: none.",
         "trusted_base": [],
         "assumptions": ["wall-clock timeout disabled; custom functions/handlers total (outside the typed core)"],
     },
@@ -259,7 +259,7 @@ PROPS = {
                 "TimeWindow::record (sliding), WindowManager (tumbling, max_windows 1,2,100) and (every 4th) WindowedStream; random: 1..12 events in order/reversed/shuffled over domains "
                 "6..2^40, durations 1..1000, caps 1..1000, field values missing/non-numeric/integers incl. i64 extremes and >2^53/floats incl. 0.1, 1e300, subnormal, inf, NaN; "
                 "non-trivial = more than one event (label not 'trivial') StreamAlphaNode (sliding and tumbling) under the injected clock: 6000 (quick) histories of clock advances and 2..12 events with timestamps around the clock (in order, late within the window, too old, in the future), foreign streams / types mixed in, caps 1,2,3,1000; observed per event: accepted?, buffered ids",
-        "level_text": "Proved for every window state, event, duration and cap: after record no retained event is older than the duration relative to the recorded event; the retained events are "
+        "level_text": "WindowManager::process_event (expiry, max_windows) is proved for every arrival sequence: after every event the retained windows are aligned intervals with different starts in ascending order, hold only events of their interval, number at most max_windows, and the event just processed is in exactly one window, its aligned one (C12_manager_places_every_event_once). Proved for every window state, event, duration and cap: after record no retained event is older than the duration relative to the recorded event; the retained events are "
                 "exactly the newest min(cap,n) young events; the recorded event is retained; tumbling windowing places events only in their aligned interval and keeps one window per interval; for whole streams (Proofs/WindowPlacementProofs.v, WindowedStream::new, any arrival order, any positive duration, any cap) every window of the result is the window of an aligned interval that received an event and holds exactly that interval's events in arrival order cut to the newest cap, starts are unique, every event's interval has its window - hence (cap not reached) each event lies in exactly one window, the aligned one. "
                 "Aggregates (count/sum/average/min/max as IEEE-754 binary64 folds over exactly the retained events, bit-for-bit, via the axiom-free SpecFloat) and exactly-once placement are the "
                 "Coq-defined monitor Window.ok evaluated on the implementation's observations after every event. StreamAlphaNode (Model/StreamAlpha.v, after repairs 8577f39 / d22a712; Session windows not modelled): compared per event with the code under the injected clock, and the Coq monitor checks on the observations: accepted iff inside the window of the clock, the buffer is a subsequence of the accepted events, holds nothing outside the window and (cap not reached) misses nothing inside it.",
@@ -287,6 +287,7 @@ PROPS = {
     "C15": {
         "num": 15,
         "vo": ["Properties/C15.vo"],
+        "harness_timeout_quick": 420,
         "rule": "sequential: exhaustive all mutator sequences of length<=2 over 4 names x 3 saliences, length<=4 (quick; <=5 thorough) over 2 names x 3 saliences (add/remove/enable/disable/clear), "
                 "random sequences of 3..8 ops incl. i32 extreme saliences; after every op the complete state (listing, lookup of all 4 names, version) is observed. Concurrent: 1500 (quick) / 40000 "
                 "(thorough) histories of 3 threads x 4 ops on one shared Arc<KnowledgeBase> with cfg-guarded yield points between lock acquisitions; each history is checked for linearizability "
@@ -318,7 +319,7 @@ PROPS = {
                 "sequence of earlier evaluations. Beta lookup = exactly the live facts with that key, and conclusion-index completeness (every enabled rule that assigns the goal's field is proposed), are theorems too, for every history "
                 "(Proofs/IndexBetaProofs.v); the same statements are the Coq-defined executable specifications in Index.ok evaluated on the real structures after every op, plus model-vs-code comparison.",
         "level_note": "Trusted: Coq kernel; models of alpha_memory_index.rs/memoization.rs after fixes c8e1e36/34a4ae3, of BetaMemoryIndex and ConclusionIndex; Debug rendering of FactValue injective except NaN; "
-                "DefaultHasher collision-free (model compares the hashed sequences); SpecFloat for IEEE equality; harness; extraction. alpha_index_eq_scan is not yet a theorem (monitor only). Axioms: none.",
+                "DefaultHasher collision-free (model compares the hashed sequences); SpecFloat for IEEE equality; harness; extraction. Axioms: none.",
         "trusted_base": ["std DefaultHasher treated as injective on the hashed byte sequences", "Debug for f64 is injective on non-NaN values"],
         "assumptions": ["floats cross the wire as 64-bit patterns", "conclusion-index goals have the form `field op literal` with the operator spellings of extract_field_from_goal"],
     },
